@@ -15,7 +15,7 @@ func init() {
 	register(&Driver{
 		ID:        "C06",
 		Technique: "exhaustive enumeration of provider populations over a typed universe (5^6 populations) x consumer field kinds x iteration orders, each a real start; admissible-set reference model per injection point (soundness and completeness)",
-		Rule:      "populations = per universe type {absent, default-named, named, default+named, two named} (6 types: exact pointer type, 3 interfaces, same-underlying-struct twin, lazy provider); consumer carries every field kind (*T, I, []*T, []I, any, []any, five func-tag forms), optional and required variants; non-trivial = some point has >= 2 admissible providers or none",
+		Rule:      "populations = per universe type {absent, default-named, named, default+named, two named} (6 types: exact pointer type, 3 interfaces, same-underlying-struct twin, lazy provider); consumer carries every field kind (*T, I, []*T, []I, any, []any, five func-tag forms), optional and required variants; non-trivial = some point has >= 2 admissible providers or none. Families added in later rounds (look-ups inside Init, retries after an abandoned attempt, user extension points at every Order, several containers, odd names / types / values) are listed per part in this file and described in MANIFEST.json (level_claimed.text) and DESIGN §7",
 		Assumptions: []string{
 			"methods with parameters or non-comparable results under `returns` are outside the documented tag",
 			"ties between several admissible providers of a single-valued point are decided by C08/C10, here any admissible one is accepted",
